@@ -148,3 +148,42 @@ def reachable_under(conds, atom, flow=None) -> bool | None:
         elif v != pol:
             return False
     return True if allt else None
+
+
+def simplify(e: ast.AST, atom) -> ast.AST:
+    """Partial evaluation: conditional expressions whose test is decided by the
+    assumption are replaced by the taken branch (used to read a value 'under an
+    assumption')."""
+    class T(ast.NodeTransformer):
+        def visit_IfExp(self, n):
+            v = k3(n.test, atom)
+            if v is True:
+                return self.visit(n.body)
+            if v is False:
+                return self.visit(n.orelse)
+            return self.generic_visit(n)
+
+        def visit_Call(self, n):
+            if isinstance(n.func, ast.Name) and n.func.id == "__phi__":
+                return self.generic_visit(n)
+            return self.generic_visit(n)
+    import copy
+    return T().visit(copy.deepcopy(e))
+
+
+def self_attr_value(ff, flow, attr: str, at_stmt: ast.AST):
+    """Value last stored into self.<attr> by a statement of this function that
+    dominates at_stmt (None if there is none or several candidates reach)."""
+    from .pyfacts import iter_stmts
+    stores = []
+    for st in iter_stmts(ff.node.body):
+        if isinstance(st, (ast.Assign, ast.AnnAssign)):
+            ts = st.targets if isinstance(st, ast.Assign) else [st.target]
+            if any(isinstance(t, ast.Attribute) and t.attr == attr and isinstance(t.value, ast.Name) and t.value.id == "self" for t in ts):
+                stores.append(st)
+    cfg = flow.cfg
+    here = cfg.node_of(at_stmt)
+    doms = [s for s in stores if cfg.dominates(cfg.node_of(s), here)]
+    if len(doms) != 1 or len(stores) != 1:
+        return None
+    return doms[0].value
